@@ -159,7 +159,9 @@ func (c *dataCopy) RequiredGas(input []byte) uint64 {
 	return uint64(len(input)+31)/32*configs.IdentityPerWordGas + configs.IdentityBaseGas
 }
 func (c *dataCopy) Run(in []byte) ([]byte, error) {
-	return in, nil
+	// The input is the caller's memory: the result must not share it, or the
+	// caller's later memory writes would change the return data.
+	return common.CopyBytes(in), nil
 }
 
 // bigModExp implements a native big integer exponential modular operation.
